@@ -101,6 +101,39 @@ CHECKS = {
         "supplies arbitrary private keys. PGP certificates only for RSA keys; cosign/PKCS#12 not replayed.",
    technique="TLA+ decision model checked by TLC; all configurations replayed on the real loader and signers",
    engine="keycert"),
+ "C01": dict(cat="model_checking", design="§4 C01",
+   text="spec/SignPipeline.tla supplies the case enumeration (21 package types x 5 key types x 6 digests x standalone/server) and the "
+        "three-valued support oracle; TLC checks SignedVerifies, ReplacesNotStacks, PayloadPreserved, RefusalLeavesInput, ProbeIff and 5 "
+        "negative controls on the abstract pipeline. Binding: every case replayed through the same call sequence the commands use "
+        "(and through the real server handler + client transform): supported combinations must sign and verify with integrity and "
+        "chain checking, naming the configured certificate and requested digest; refusals must leave the input untouched.",
+   note="The model does not describe bytes: assurance comes from replaying its cases. One fixture layout per type; file token only.",
+   technique="TLA+ case/oracle model checked by TLC; all cases replayed on the real sign and verify pipelines",
+   engine="pipeline"),
+ "C08": dict(cat="model_checking", design="§4 C08",
+   text="SignPipeline histories (three signing rounds with differing keys and digests, unsupported digests in between, alternating "
+        "same-path and new-path output) enumerated by TLC and replayed per type; after every successful round: relic verify, exactly "
+        "one signature naming that round's certificate and digest, payload equal to the ORIGINAL input per independent readers, "
+        "is-signed probe true (false on unsigned fixtures), PE/PowerShell content digest equal across rounds.",
+   note="Two open findings (vsix double signing, xap re-signing) are listed in known_findings.json. Starting artifacts are the fixtures.",
+   technique="TLA+ history enumeration by TLC; histories replayed on the real pipelines with independent readers",
+   engine="pipeline"),
+ "C03": dict(cat="model_checking", design="§4 C03",
+   text="Every successful signing of the SignPipeline cases and histories is followed by an independent projection of the output "
+        "(archive/zip, debug/pe, own ar/rpm/koly/script walkers): payload items must equal the original input's, in order, for same-path "
+        "and new-path output; rewrite-heavy types are repeated with 16 processes competing for CPU (this is how the shared-file-offset "
+        "defect was found).",
+   note="Independent readers exist for 13 of 21 types; msi is covered by C18's reader, the rest only by relic's own verifier. "
+        "Fixture layouts only in this check.",
+   technique="model-generated cases replayed on the real pipelines; output projected through independent readers",
+   engine="pipeline"),
+ "C05": dict(cat="model_checking", design="§4 C05",
+   text="Successful SignPipeline cases of the types that have a reference implementation in the sandbox are handed to it: jarsigner and "
+        "openssl cms (jar), gpgv (detached, clearsign, deb member), dpkg-deb; PE image hash, PE checksum and PowerShell digest are "
+        "recomputed by harness code written from the specifications and compared with the values inside relic's signature.",
+   note="No reference verifier for rpm, appx, mach-o/dmg/pkg, cab, cat, msi, apk v2 exists here; XML-DSig goes to the JDK in C19.",
+   technique="model-generated cases replayed; second observer = ecosystem verifiers and specification-derived reference computations",
+   engine="pipeline"),
 }
 
 NOT_YET = {}
